@@ -15,10 +15,18 @@ JOBS = [
     dict(name='c14_crc32_lemma_byte', entry='h_lemma_byte', enforce='cqv_lemma_byte', loop_contracts=False,
          unwind=257, functions=[], est_s=20, **B),
 ]
-# 4a. slide lemmas: H_k(s, d_k..d_7) == H_{k+1}(bytestep(s, d_k), d_{k+1}..d_7), all inputs
+# 4a. every table is GF(2)-linear (2^16 inputs each); Tn[x] as zero-byte steps of T0[x] (2^8)
+for k in range(8):
+    JOBS.append(dict(name='c14_crc32_lemma_lin%d' % k, entry='h_lemma_lin', enforce='cqv_lemma_lin',
+                     loop_contracts=False, unwind=257, functions=[], est_s=40, timeout=300,
+                     bound=None, **dict(B, defines=B['defines'] + ['CQV_K=%d' % k])))
+JOBS.append(dict(name='c14_crc32_lemma_rec', entry='h_lemma_rec', enforce='cqv_lemma_rec', loop_contracts=False,
+                 unwind=257, functions=[], est_s=30, timeout=300, **B))
+# 4b. slide lemmas: H_k(s, d_k..d_7) == H_{k+1}(bytestep(s, d_k), d_{k+1}..d_7), all inputs
 for k in range(8):
     JOBS.append(dict(name='c14_crc32_lemma_slide%d' % k, entry='h_lemma_slide', enforce='cqv_lemma_slide%d' % k,
-                     loop_contracts=False, unwind=257, functions=[], est_s=60,
+                     loop_contracts=False, unwind=257, functions=[], est_s=60, timeout=300,
+                     replace=['cqv_lemma_lin', 'cqv_lemma_rec'],
                      **dict(B, defines=B['defines'] + ['CQV_K=%d' % k])))
 JOBS += [
     # 4. block statement == eight bit-serial byte steps (2^96), from the slide lemmas and the byte lemma
